@@ -38,6 +38,18 @@ def gen_avps(rng, rows_by_ty, nmax, depth):
         if rng.random() < 0.15:      # repeated AVP
             objs.append(a)
             canon.append(canon[-1])
+        if rng.random() < 0.2:       # the same code under a different vendor (or none): a different AVP
+            v2 = rng.choice([10415, 9999999]) if a.vendor_id == 0 else rng.choice([0, 0, a.vendor_id + 1])
+            pl = bytes(rng.getrandbits(8) for _ in range(rng.choice([0, 4, 5, 12])))
+            from diameter.message.avp.avp import get_avp_dictionary_entry
+            if get_avp_dictionary_entry(a.code, v2) is not None:
+                continue             # a defined pair would need a payload of its own type
+            t = A.Avp(a.code, v2, pl, (0x80 if v2 else 0) | rng.choice([0, 0x40]))
+            if rng.random() < 0.5:
+                objs.insert(rng.randrange(len(objs) + 1), t)
+            else:
+                objs.append(t)
+            canon[:] = [(x.code, x.flags, x.vendor_id, bytes(x.payload)) for x in objs]
     return objs, canon
 
 
@@ -115,6 +127,40 @@ def check(run):
             run.violation("header-flag-bits", case, flagprops)
         hdr_cases.append(f"({coq_hdr(v, ln, f, c, app, hbh, e2e)}, {O.hx(wire)})")
         hdr_meta.append(case)
+
+    # ---- commands registered at run time: histories in which the code was decoded BEFORE it was registered ----------
+    from diameter.message import DefinedMessage
+    from diameter.message import commands as _cmds
+
+    def _mk(name, code):
+        base = type(name, (DefinedMessage,), {"code": code, "name": name, "avp_def": (),
+                                              "__post_init__": lambda self: (setattr(self.header, "command_code", code),
+                                                                             DefinedMessage.__post_init__(self))[1]})
+        req = type(name + "Request", (base,), {})
+        ans = type(name + "Answer", (base,), {})
+        base.type_factory = classmethod(lambda cls, header: req if header.is_request else ans)
+        return base, req, ans
+    for code in (999, 283, 8388700):
+        saved = _cmds.all_commands.get(code)
+        try:
+            wires = {r: MessageHeader(1, 20, 0x80 if r else 0, code, 0, 7, 9).as_bytes() for r in (0, 1)}
+            before = {r: type(Message.from_bytes(wires[r])).__name__ for r in (0, 1)}
+            hist = {"op": "register-history", "code": code, "before": before}
+            run.count(1, [("cmd-register-history", code)])
+            for gen in ("VerifFirst", "VerifSecond"):
+                base, req, ans = _mk(gen + str(code), code)
+                _cmds.register(base)
+                got = (type(Message.from_bytes(wires[1])).__name__, type(Message.from_bytes(wires[0])).__name__,
+                       type(Message.from_bytes(wires[1], plain_msg=True)).__name__)
+                want = (req.__name__, ans.__name__, base.__name__)
+                if got != want:
+                    run.violation("class-dispatch-after-register", dict(hist, registered=base.__name__), got, want,
+                                  what="a command class registered at run time is not used for a code that was decoded before")
+        finally:
+            if saved is None:
+                _cmds.all_commands.pop(code, None)
+            else:
+                _cmds.all_commands[code] = saved
 
     # ---- messages ---------------------------------------------------------
     codes = sorted(all_commands) + [1, 999, 8388607, 16777215]
